@@ -43,6 +43,11 @@ pub(crate) struct Thread {
 
     locals: LocalMap,
 
+    /// Keys of `locals` in initialization order. The destructors run in this
+    /// order, so that the exploration does not depend on the iteration order
+    /// of a `HashMap`.
+    locals_order: Vec<LocalKeyId>,
+
     /// `tracing` span used to associate diagnostics with the current thread.
     span: tracing::Span,
 }
@@ -113,6 +118,7 @@ impl Thread {
             unpark_causality: VersionVec::new(),
             pending_unpark: false,
             locals: HashMap::new(),
+            locals_order: Vec::new(),
         }
     }
 
@@ -197,8 +203,10 @@ impl Thread {
         let mut locals = Vec::with_capacity(self.locals.len());
 
         // run the Drop impls of any mock thread-locals created by this thread.
-        for local in self.locals.values_mut() {
-            locals.push(local.0.take());
+        for key in &self.locals_order {
+            if let Some(local) = self.locals.get_mut(key) {
+                locals.push(local.0.take());
+            }
         }
 
         Box::new(locals)
@@ -474,11 +482,11 @@ impl Set {
         key: &'static crate::thread::LocalKey<T>,
         value: T,
     ) {
-        assert!(self
-            .active_mut()
-            .locals
-            .insert(LocalKeyId::new(key), LocalValue::new(value))
-            .is_none())
+        let id = LocalKeyId::new(key);
+        let active = self.active_mut();
+
+        assert!(active.locals.insert(id, LocalValue::new(value)).is_none());
+        active.locals_order.push(id);
     }
 }
 
